@@ -492,8 +492,24 @@ def count_resizes(fn, call, pull, X):
                 unknown.append(n)
             continue
         a = resolve_alias(fn, n['args'][0])
-        mentions = any(is_stream_member(fn, x, sq, {'next_out', 'avail_out', 'total_out'}) for x in fn.subtree(a['id']))
+        # the advance of a running total over this call: total_out - <local holding total_out from before the call>
+        if a.get('k') == 'binop' and a.get('op') == '-':
+            l, r = strip_casts(fn, a['lhs']), scn(fn, a['rhs'])
+            ln = fn.nodes.get(l) or {}
+            if is_stream_member(fn, l, sq, {'total_out', 'total_out_lo32'}) and r is not None and r.get('k') == 'var' and r.get('vk') == 'local':
+                i = decl_init(fn, r['d'])
+                de = next((m['id'] for m in fn.all_nodes() if m.get('k') == 'decl' and any(v['d'] == r['d'] for v in m['vars'])), None)
+                if i is not None and de is not None and fn.elem_dominates(de, call['id']) \
+                        and is_stream_member(fn, strip_casts(fn, i), sq, {ln.get('name')}) \
+                        and not any(m.get('k') == 'assign' and E.carrier_of(fn, m['lhs']) == ('var', r['d']) for m in fn.all_nodes()):
+                    # (taken once before a loop that pulls repeatedly it is still the count of the last call as long as the loop
+                    # only goes on without data -- which S2 decides)
+                    valid.append(n)
+                    continue
+        mentions = any(is_stream_member(fn, x, sq, {'next_out', 'avail_out'}) for x in fn.subtree(a['id']))
         if not mentions:
+            # (a running total -- total_out, total_out_lo32 / _hi32 -- is not the number of bytes THIS call produced: such a resize
+            # is simply not a cut to the count; S1 then reports the path, see cumulative_resizes)
             continue
         ok = False
         if a.get('k') == 'binop' and a.get('op') == '-':
@@ -508,6 +524,24 @@ def count_resizes(fn, call, pull, X):
                     ok = True
         (valid if ok else unknown).append(n)
     return valid, unknown
+
+
+CUMULATIVE_COUNTERS = {'total_out', 'total_out_lo32', 'total_out_hi32', 'total_in', 'total_in_lo32', 'total_in_hi32'}
+
+
+def cumulative_resizes(fn, call, pull, X):
+    """resize calls on the returned string, after the pull call, whose length is computed from a running total of the stream."""
+    sq = stream_field(fn, call, pull)
+    if sq is None or X is None:
+        return []
+    after = set(fn.elems_after(call['id']))
+    out = []
+    for n in fn.all_nodes():
+        if string_call_on(fn, n, X, {'resize'}) and n['id'] in after and n.get('args'):
+            srcs = [n['args'][0]] + [i for i in (decl_init(fn, d) for d in data_sources(fn, n['args'][0])) if i is not None]
+            if any(is_stream_member(fn, x, sq, CUMULATIVE_COUNTERS) for s_ in srcs for x in fn.subtree(s_)):
+                out.append(n)
+    return out
 
 
 def sized_probes(fn, call, pull, X):
@@ -1388,4 +1422,48 @@ def file_has_more_env(fn, call):
         if E.is_extern_c(n) and n['q'] in EOF_FLAG and n['id'] in after:
             if any(fn.elem_dominates(p['id'], n['id']) and fn.elem_dominates(call['id'], p['id']) for p in probes):
                 env[('node', n['id'])] = E.fin(0)
+    return env
+
+
+def initial_state_envs(fb, cls):
+    """[(constructor Fn, environment)]: what each constructor of cls establishes about the members -- a constant stored by a member
+    initialiser / default member initialiser / assignment in the body is that constant; a member initialised from a POINTER
+    parameter is assumed non-null (ASSUMPTION: callers hand a valid buffer / handle); a member initialised from an integral
+    parameter (a size, a descriptor) is unknown and may be 0."""
+    out = []
+    for c in dedupe([f for f in fb.functions if f.cls == cls and f.kind == 'ctor']):
+        ptr_params = {p['d'] for p in c.params if p['tC'].rstrip().endswith('*')}
+        env = {}
+        for n in sorted(c.all_nodes(), key=lambda n: n.get('o', 0)):
+            if n.get('k') == 'init' and n.get('q') and isinstance(n.get('init'), int):
+                car, rhs = ('field', n['q']), n['init']
+            elif n.get('k') == 'assign' and n.get('op') == '=' and (E.carrier_of(c, n['lhs']) or ('',))[0] == 'field':
+                car, rhs = E.carrier_of(c, n['lhs']), n['rhs']
+            else:
+                continue
+            v = E.const_of(c, rhs)
+            r = scn(c, rhs)
+            if v is not None:
+                env[car] = E.fin(v)
+            elif r is not None and r.get('k') == 'var' and r.get('vk') == 'param' and r.get('d') in ptr_params:
+                env[car] = E.ge(1)
+            else:
+                env.pop(car, None)
+        out.append((c, env))
+    return out
+
+
+def fresh_string_env(fn, call, X):
+    """the returned string is default-constructed and every size()/empty() probe that can execute before the first pull sees it
+    empty (nothing but the pull call's own preparation touches it earlier)."""
+    i = decl_init(fn, X) if X is not None else None
+    n = scn(fn, i) if i is not None else None
+    if n is None or n.get('k') != 'construct' or [a for a in (n.get('args') or []) if a is not None and fn.nodes.get(a, {}).get('cls') != 'CXXDefaultArgExpr']:
+        return {}
+    env = {}
+    for m in fn.all_nodes():
+        if m.get('k') == 'call' and string_call_on(fn, m, X, {'empty'}):
+            env[('node', m['id'])] = E.fin(1)
+        elif m.get('k') == 'call' and string_call_on(fn, m, X, {'size', 'length'}):
+            env[('node', m['id'])] = E.fin(0)
     return env
